@@ -292,10 +292,11 @@ class Input(ContextManager["Input"]):
         )
         if event:
             return event
-        if (
-            self.queued_scheduled_events and when < time.time()
-        ):  # when should always be defined
-            # because queued_scheduled_events should not be modified during this time
+        if self.queued_scheduled_events:
+            # events may have been scheduled (from a callback) while we were waiting
+            self.queued_scheduled_events.sort(key=lambda pair: pair[0])
+            when, _ = self.queued_scheduled_events[0]
+        if self.queued_scheduled_events and when < time.time():
             logger.debug(
                 "popping an event! %r %r",
                 self.queued_scheduled_events[0],
